@@ -202,7 +202,7 @@ namespace hmac_hash {
         size_t pm_len;
         uint64_t len_b; // message length in bits
         size_t i;
-        block_nb = (1 + ((SHA384_512_BLOCK_SIZE - 9)
+        block_nb = (1 + ((SHA384_512_BLOCK_SIZE - 17)
             < (static_cast<size_t>(m_len) % SHA384_512_BLOCK_SIZE)));
         len_b = (m_tot_len + m_len) << 3;
         pm_len = block_nb << 7;
